@@ -1,6 +1,11 @@
 """C14 generators (no sc3 import): instruments, event specs, play programs,
 scale/tuning specs and event-pattern compositions.  All data is json-able; see
-vf/model_events.py for the spec grammar."""
+vf/model_events.py for the spec grammar.
+
+Round 8 (end of the file): fault histories (fault_program: plays that fail
+half way, repair, continued use of the same object), player-control histories
+(control_case), compositions with Pkey / Pevent / Pchain.chain (entry_case)
+and players beside a pattern whose k-th event fails (pattern_fault_case)."""
 
 from vf import model_events as me
 
@@ -12,6 +17,10 @@ VOCAB = [('freq', 440.0), ('amp', 0.1), ('pan', 0.0), ('out', 0), ('foo', 3.0),
 
 
 NODESC = 'c14_nodesc'      # never added to the SynthDescLib
+# (what the library sends for it: the documented default parameters)
+NODESC_INST = {'name': NODESC, 'gate': None, 'variants': None,
+               'controls': [('freq', 440.0), ('amp', 0.1), ('pan', 0.0),
+                            ('out', 0)]}
 
 
 def instruments(rng, n=8):
@@ -250,7 +259,7 @@ def _history_event(rng, inst, tag, offgrid):
 def _history_edit(rng, ev, insts, offgrid):
     """Edit of the user keys of an event between two plays: (set, delete)."""
     by_name = {i['name']: i for i in insts}
-    inst = by_name[ev['instrument']]
+    inst = by_name.get(ev['instrument']) or NODESC_INST
     st, dl = {}, []
     if rng.random() < 0.15:
         inst = rng.choice(insts)
@@ -956,3 +965,626 @@ def timeline_case(rng, insts, tags):
         # sets): every event of the stream is a rest, the timing is kept
         case['proto'] = 'event-rest'
     return case
+
+
+# ---------------------------------------------------------------- fault histories
+#
+# A play() that FAILS half way, followed by repair and continued use of the
+# same event object.  The failure is brought about through the user's own
+# keys - the only way a user can make the library fail while it resolves keys
+# and builds the message:
+#
+#   kind             key                 value                    fails in
+#   fn-missing-key   a plain control     function of a key the    control list
+#                                        event does not define
+#   fn-raises        a plain control,    function that raises     control list /
+#                    amp, sustain,                                gate-off
+#                    legato, dur
+#   unencodable      a plain control     object(), complex, set,  message encoder
+#                                        bytes
+#   too-big          a plain control     2 ** 40 (no OSC int32)   bundle builder
+#   bad-add-action   add_action          'bogus', 9               after the list
+#   bad-group        group               object()                 after the list
+#   bad-server       server              object()                 node id
+#   bad-synth-lib    synth_lib           object()                 description
+#   bad-pitch        degree / octave /   'c', None, object()      pitch chain
+#                    detune / harmonic /
+#                    scale / mtranspose
+#   bad-db           db (no amp)         'loud'                   default list
+#                                                                 (undescribed
+#                                                                 instrument)
+#
+# Whether a given fault makes play() raise depends on the instrument (a
+# function in `pan` is only called when the instrument has a pan control) -
+# the oracle does not care: what a play of a broken event sends is not
+# decided, every play of an event whose keys are all numbers again is.
+
+PLAIN_CONTROLS = ('pan', 'out', 'foo', 'bar', 'cutoff', 'index')
+FN_HELPER_KEY = 'c14pos'        # no control of any instrument
+
+
+def _plain_controls_of(inst):
+    if inst is None:            # undescribed: the default parameter list
+        return ['pan', 'out']
+    return [n for n, _ in inst['controls'] if n in PLAIN_CONTROLS]
+
+
+def fault_edit(rng, ev, inst):
+    """One fault for an event with user keys `ev` on instrument `inst` (None:
+    the undescribed one): ({key: bad value}, [keys to delete], kind)."""
+    plain = _plain_controls_of(inst)
+    names = ['pan', 'out', 'freq', 'amp'] if inst is None else \
+        [n for n, _ in inst['controls']]
+    kinds = ['bad-pitch', 'bad-pitch']
+    if inst is None:
+        kinds += ['bad-db', 'bad-db', 'fn-missing-key', 'fn-raises']
+    else:
+        kinds += ['bad-add-action', 'bad-add-action', 'bad-group',
+                  'bad-server', 'bad-synth-lib', 'fn-chain-key']
+        if plain:
+            kinds += ['fn-missing-key'] * 5 + ['fn-raises'] * 3 + \
+                ['unencodable'] * 4 + ['too-big'] * 2
+    kind = rng.choice(kinds)
+    if kind == 'fn-missing-key':
+        k = rng.choice(plain)
+        return ({k: {'fn': rng.choice(['item', 'call']), 'key': FN_HELPER_KEY,
+                     'mul': rng.choice([2.0, 1, -0.5, 4]),
+                     'add': rng.choice([-1.0, 0, 0.25, 3])}},
+                [FN_HELPER_KEY], kind)
+    if kind == 'fn-raises':
+        k = rng.choice(plain)
+        return ({k: {'bad': 'fn-raises',
+                     'exc': rng.choice(['ZeroDivisionError', 'ValueError',
+                                        'LookupError', 'RuntimeError'])}},
+                [], kind)
+    if kind == 'fn-chain-key':
+        # a raising function in a key of a chain: called while the control
+        # list is built when it is a control of the instrument, for the
+        # gate-off (sustain, legato, dur) otherwise - or never
+        k = rng.choice(['amp', 'sustain', 'sustain', 'legato', 'dur',
+                        'stretch', 'detune'])
+        dl = ['delta'] if k in ('dur', 'stretch') else []
+        return ({k: {'bad': 'fn-raises', 'exc': 'ZeroDivisionError'}}, dl,
+                kind if k in names else kind + '-no-control')
+    if kind == 'unencodable':
+        return ({rng.choice(plain): {'bad': rng.choice(
+            ['object', 'complex', 'set', 'bytes'])}}, [], kind)
+    if kind == 'too-big':
+        return {rng.choice(plain): {'bad': 'bigint'}}, [], kind
+    if kind == 'bad-add-action':
+        return ({'add_action': {'bad': rng.choice(['str-bogus', 'int-9'])}},
+                [], kind)
+    if kind == 'bad-group':
+        return {'group': {'bad': 'object'}}, [], kind
+    if kind == 'bad-server':
+        return {'server': {'bad': 'object'}}, [], kind
+    if kind == 'bad-synth-lib':
+        return {'synth_lib': {'bad': 'object'}}, [], kind
+    if kind == 'bad-db':
+        return {'db': {'bad': 'str-loud'}}, ['amp'], kind
+    # bad-pitch: a key of the pitch chain the event resolves through
+    if 'freq' in ev:
+        k = rng.choice(['freq', 'detune'])
+    elif 'midinote' in ev:
+        k = rng.choice(['midinote', 'detune', 'harmonic', 'ctranspose'])
+    elif 'note' in ev:
+        k = rng.choice(['note', 'octave', 'detune', 'harmonic', 'root'])
+    else:
+        k = rng.choice(['degree', 'octave', 'detune', 'harmonic', 'scale',
+                        'mtranspose', 'root'])
+    bad = {'bad': 'object'} if k == 'scale' else \
+        {'bad': rng.choice(['str-c', 'none', 'object'])}
+    return {k: bad}, [], kind
+
+
+def _repair(rng, ev, inst, insts, offgrid):
+    """(set, delete) that makes every broken key of `ev` a number again (or
+    removes it, or gives a function its missing key) - plus, most of the time,
+    an ordinary edit of other keys: the next play must send what the event
+    defines THEN."""
+    st, dl = {}, []
+    for k in me.broken_keys(ev):
+        v = ev[k]
+        if me.is_fn_value(v) and rng.random() < 0.5:
+            # the function stays, the key it reads is given
+            st[FN_HELPER_KEY] = rng.choice([0.25, 1, -2, 0.5, 3.0])
+            continue
+        if k in PLAIN_CONTROLS:
+            if rng.random() < 0.25:
+                dl.append(k)
+            else:
+                st[k] = _numv(rng, [-1, 0, 1, 2, 0.25, 7.5, 100])
+        elif k in ('add_action', 'group', 'server', 'synth_lib', 'scale'):
+            if k in ('add_action', 'group') and rng.random() < 0.5:
+                st.update({k: server_keys_one(rng, k)})
+            else:
+                dl.append(k)
+        elif k == 'db':
+            r = rng.random()
+            if r < 0.4:
+                st['db'] = _numv(rng, [-40.5, -20, -12, -6, 0])
+            elif r < 0.7:
+                dl.append('db')
+                st['amp'] = _numv(rng, [0.05, 0.3, 0.5, 1])
+            else:
+                dl.append('db')
+        else:
+            # a key of a chain
+            good = {'degree': list(range(-7, 15)), 'octave': [3, 4, 6, 7],
+                    'detune': [-5, 0.7, 3], 'harmonic': [0.5, 2, 3],
+                    'mtranspose': [-2, 1, 3], 'root': [-2, 1, 5],
+                    'ctranspose': [-12, 1, 7], 'note': [-5, 1, 3.5, 14.25],
+                    'midinote': [36, 48.5, 61, 72], 'freq': [110.5, 333.3],
+                    'amp': [0.05, 0.3, 1], 'sustain': [0.125, 0.5, 2.5],
+                    'legato': LEGATO, 'stretch': STRETCH,
+                    'dur': OFF_DUR if offgrid else GRID_DUR}[k]
+            if k not in ('freq', 'midinote', 'note', 'degree') \
+                    and rng.random() < 0.3:
+                dl.append(k)
+            else:
+                st[k] = _numv(rng, good)
+    if rng.random() < 0.75:
+        # the user also moves the note / changes other keys while at it
+        cur = {k: v for k, v in ev.items() if k not in dl}
+        cur.update(st)
+        st2, dl2 = _history_edit(rng, cur, insts, offgrid)
+        st2.pop('instrument', None)
+        for k, v in st2.items():
+            if k not in st and k not in dl:
+                st[k] = v
+        fixed = set(st) | set(dl) | {FN_HELPER_KEY}
+        fn_keys = {k for k, v in ev.items() if me.is_fn_value(v)}
+        dl += [k for k in dl2 if k not in fixed and k not in fn_keys]
+    return st, dl
+
+
+def server_keys_one(rng, k):
+    if k == 'add_action':
+        return rng.choice(['addToHead', 'addToTail', 'addBefore', 'addAfter',
+                           't', 'b', 0, 1, 3])
+    return rng.choice([1, 0, 2, 77, 1001, 'groupobj'])
+
+
+def _normalise_history_state(state, st, dl):
+    """The input classes every history keeps out (see history_steps)."""
+    if 'freq' in state and 'harmonic' in state \
+            and not me.is_bad_value(state['harmonic']):
+        state.pop('harmonic')
+        st.pop('harmonic', None)
+        dl.append('harmonic')
+    if 'ctranspose' in state and not any(
+            x in state for x in ('freq', 'midinote', 'note')):
+        state.pop('ctranspose')
+        st.pop('ctranspose', None)
+        dl.append('ctranspose')
+    if 'db' in state and 'velocity' in state and 'amp' not in state:
+        state.pop('velocity')
+        st.pop('velocity', None)
+        dl.append('velocity')
+
+
+def fault_steps(rng, insts, tags, offgrid):
+    """Histories on event objects in which plays FAIL: create (sound or broken
+    from the start), break by an edit and play (fails; maybe again, edited
+    again while still broken), repair by one of the mutators and play, copy a
+    broken object and repair the copy (or the source) ...  A step whose event
+    has broken keys is a failing play (`fails`: the fault kinds present); every
+    other step is an ordinary play that must send what the object defines."""
+    by_name = {i['name']: i for i in insts}
+    steps, state = [], {}
+    lineage, faulted = {}, {}      # obj -> tags of earlier plays / fault kinds
+    kinds_of = {}                  # obj -> kind of each broken key
+
+    def inst_of(ev):
+        return by_name.get(ev['instrument'])
+
+    def add_step(k, op, src, st, dl, wait, fresh=False):
+        st['tag'] = next(tags)
+        for key in dl:
+            state[k].pop(key, None)
+        state[k].update(st)
+        _normalise_history_state(state[k], st, dl)
+        broken = me.broken_keys(state[k])
+        kinds_of[k] = {key: kind for key, kind in kinds_of.get(k, {}).items()
+                       if key in broken}
+        step = {'wait': wait, 'event': dict(state[k]), 'how': 'object',
+                'obj': k, 'op': op, 'prev_tags': list(lineage[k]),
+                'after_fault': list(faulted[k])}
+        if not fresh:
+            step.update({'src': src, 'set': st, 'del': dl,
+                         'mut': rng.choice(PLAY_MUTATORS),
+                         'peek': rng.random() < 0.5,
+                         'peek_after': not broken and rng.random() < 0.6})
+            if op == 'copy':
+                step['copy_how'] = rng.choice(COPY_HOWS)
+        if broken:
+            step['fails'] = sorted(set(kinds_of[k].values())) or ['broken']
+            step['peek_after'] = False
+            faulted[k] = faulted[k] + [st['tag']]
+        steps.append(step)
+        lineage[k].append(st['tag'])
+
+    n_steps = rng.randint(3, 7)
+    while len(steps) < n_steps or any(me.broken_keys(s) for s in state.values()):
+        wait = rng.choice(OFF_DUR if offgrid else GRID_DUR + [0, 0])
+        r = rng.random()
+        late = len(steps) >= n_steps        # only repairs from here on
+        if not state or (r < 0.15 and not late):
+            k = len(state)
+            inst = rng.choice(insts)
+            ev = _history_event(rng, inst, 0, offgrid)
+            if rng.random() < 0.06:
+                ev['instrument'] = NODESC
+                ev.pop('variant', None)
+            state[k], lineage[k], faulted[k] = {}, [], []
+            st = dict(ev)
+            if rng.random() < 0.5:
+                # broken from the start: the object's FIRST play fails
+                fs, fd, kind = fault_edit(rng, ev, inst_of(ev))
+                st.update(fs)
+                for key in fd:
+                    st.pop(key, None)
+                kinds_of[k] = {key: kind for key in fs}
+            add_step(k, 'new', None, st, [], wait, fresh=True)
+            continue
+        cand = [o for o in sorted(state) if me.broken_keys(state[o])] if late \
+            else sorted(state)
+        src = rng.choice(cand)
+        broken = me.broken_keys(state[src])
+        if broken:
+            r = rng.random()
+            if r < 0.6 or late:
+                st, dl = _repair(rng, state[src], inst_of(state[src]), insts,
+                                 offgrid)
+                add_step(src, 'replay', src, st, dl, wait)
+            elif r < 0.8:
+                # a copy of the broken object is repaired, the source stays
+                k = len(state)
+                state[k] = dict(state[src])
+                lineage[k], faulted[k] = list(lineage[src]), list(faulted[src])
+                kinds_of[k] = dict(kinds_of.get(src, {}))
+                st, dl = _repair(rng, state[k], inst_of(state[k]), insts,
+                                 offgrid)
+                add_step(k, 'copy', src, st, dl, wait)
+            else:
+                # played again while still broken (perhaps edited elsewhere)
+                st, dl = ({}, []) if rng.random() < 0.5 else \
+                    _history_edit(rng, state[src], insts, offgrid)
+                st.pop('instrument', None)
+                keep = set(broken) | {FN_HELPER_KEY}
+                st = {a: b for a, b in st.items() if a not in keep}
+                dl = [a for a in dl if a not in keep]
+                add_step(src, 'replay', src, st, dl, wait)
+            continue
+        r = rng.random()
+        if r < 0.6:
+            fs, fd, kind = fault_edit(rng, state[src], inst_of(state[src]))
+            if rng.random() < 0.3:
+                k, op = len(state), 'copy'      # the copy is broken
+                state[k] = dict(state[src])
+                lineage[k], faulted[k] = list(lineage[src]), list(faulted[src])
+            else:
+                k, op = src, 'replay'
+            kinds_of[k] = {key: kind for key in fs}
+            add_step(k, op, src, dict(fs), [d for d in fd if d not in fs], wait)
+        else:
+            if rng.random() < 0.4:
+                k, op = len(state), 'copy'
+                state[k] = dict(state[src])
+                lineage[k], faulted[k] = list(lineage[src]), list(faulted[src])
+                kinds_of[k] = {}
+            else:
+                k, op = src, 'replay'
+            st, dl = _history_edit(rng, state[k], insts, offgrid)
+            fn_keys = {a for a, v in state[k].items() if me.is_fn_value(v)}
+            if fn_keys:
+                dl = [a for a in dl if a != FN_HELPER_KEY]
+            if 'instrument' in st and state[k]['instrument'] == NODESC:
+                st.pop('instrument')
+            add_step(k, op, src, st, dl, wait)
+    return steps
+
+
+def fault_program(rng, insts, tags):
+    where = rng.choice(['main', 'routine-system', 'routine-system',
+                        'routine-tempo'])
+    latency = rng.choice([0, 0, 0.05, 0.2, 0.25, 0.015625, 1, 0.1])
+    offgrid = rng.random() < 0.3
+    return {'where': where, 'latency': latency, 'offgrid': offgrid,
+            'steps': fault_steps(rng, insts, tags, offgrid),
+            'history': True, 'fault': True}
+
+
+# ---------------------------------------------------------------- player control
+#
+# EventStreamPlayer.mute / unmute / pause / resume / play / reset / stop:
+# "an event stream player plays event k at its start time plus the sum of the
+# preceding deltas" - for a player that is paused and resumed, reset or
+# restarted the sum starts again at the resume / restart (vf/model_events.py
+# controlled()); a muted player sends nothing and keeps time.
+# Action j of a case happens at a multiple of 1/16 plus (2j + 1) / 1024: never
+# at a wake-up of the player (all deltas are multiples of 1/64), neither
+# before nor after a resume moved its wake-ups.
+
+def _sequential_composition(rng, insts, tags):
+    for _ in range(8):
+        x = composition(rng, insts, tags, False, rng.choice([0, 1, 1]),
+                        allow_mono=False)
+        tl = me.timeline(x)
+        if tl.sequential and not tl.flags and len(tl.items) >= 2:
+            return x
+    pb = pbind_spec(rng, insts, tags, False)
+    while len(me.timeline(pb).items) < 2:
+        pb = pbind_spec(rng, insts, tags, False)
+    return pb
+
+
+CONTROL_CHOICES = {
+    # state -> [(action, families)]
+    'playing': [('mute', 'mM'), ('unmute', 'mM'), ('pause', 'pM'),
+                ('pause', 'pM'), ('reset', 'rM'), ('stop', 'sM'),
+                ('play-reset', 'sM'), ('reset-play', 's'), ('resume', 'p'),
+                ('play', 'p')],
+    'paused': [('resume', 'pM'), ('resume', 'pM'), ('play', 'pM'),
+               ('mute', 'M'), ('unmute', 'M'), ('reset-play', 'sM'),
+               ('play-reset', 'sM'), ('pause', 'p')],
+    'stopped': [('reset-play', 'psrmM'), ('play-reset', 'psrmM')],
+    'ended': [('reset-play', 'sM'), ('play-reset', 'sM'), ('resume', 'p'),
+              ('mute', 'm'), ('pause', 'p')],
+}
+
+
+def control_case(rng, insts, tags):
+    family = rng.choice(['mute', 'mute', 'pause', 'pause', 'pause', 'reset',
+                         'reset', 'start-again', 'start-again', 'Mixed',
+                         'Mixed', 'Mixed'])
+    if family == 'mute' and rng.random() < 0.5:
+        x = composition(rng, insts, tags, False, 0, allow_mono=False)
+        if me.timeline(x).flags:
+            x = _sequential_composition(rng, insts, tags)
+    else:
+        x = _sequential_composition(rng, insts, tags)
+    tl = me.timeline(x)
+    if not tl.sequential:
+        family = 'mute'
+    fam = family[0]
+    at = rng.choice([0.25, 1, 2.5, 0.0625])
+    steps = max(2, int(tl.total * 16))
+    acts, g, after_reset = [], 0, False
+    k = rng.randint(1, 3) if fam in 'mrs' else rng.randint(2, 6)
+    for j in range(7):
+        if j >= k and me.controlled(tl, at, acts).state == 'ended':
+            break
+        # where on the player's time line: mostly while it has events left
+        g += rng.choice([rng.randint(0, max(1, steps // 2)),
+                         rng.randint(0, steps), 1, 2, rng.randint(0, 3)])
+        t = at + g / 16.0 + (2 * j + 1) / 1024.0
+        state = me.controlled(tl, at, acts, probe=t).state
+        if j >= k and state == 'playing':
+            break
+        cand = [a for a, f in CONTROL_CHOICES[state] if fam in f]
+        if after_reset:
+            # (play() of a player that was reset while playing starts it
+            # again at once - documented nowhere, kept out)
+            cand = [a for a in cand if a != 'play']
+        if not cand:
+            if state == 'ended':
+                break
+            cand = [a for a, f in CONTROL_CHOICES[state] if 'M' in f]
+        do = rng.choice(cand)
+        if do == 'reset':
+            after_reset = True
+        elif do in ('reset-play', 'play-reset', 'stop'):
+            after_reset = False
+        acts.append({'at': t, 'do': do})
+    final = me.controlled(tl, at, acts).state
+    if final in ('paused', 'stopped'):
+        # every history ends with a player that runs to its end
+        g += rng.randint(0, 8)
+        do = 'reset-play' if final == 'stopped' else rng.choice(
+            ['resume', 'resume', 'play', 'reset-play'])
+        acts.append({'at': at + g / 16.0 + 15 / 1024.0, 'do': do})
+    case = {'pattern': x, 'form': 'control', 'family': family,
+            'controls': acts, 'at': at, 'offgrid': False,
+            'latency': rng.choice([0, 0, 0.05, 0.25, 0.015625]),
+            'clock': rng.choice(['default', 'system', 'tempo']),
+            'proto': rng.choice([None, 'event'])}
+    return case
+
+
+# ---------------------------------------------------------------- entry points
+#
+# Pkey (a column of a Pbind takes the value the same Pbind gave an earlier
+# key), Pevent (a pattern gets an event of its own as input instead of the
+# player's prototype) and Pchain.chain (a <> b built by the method) inside the
+# ordinary compositions.
+
+def _decorate(rng, p, insts, used):
+    kind = p[0]
+    if kind in ('pbind', 'pmono'):
+        m = p[1] if kind == 'pbind' else p[2]
+        if rng.random() < 0.6:
+            src = [k for k, v in m.items() if k in (
+                'dur', 'legato', 'amp', 'pan', 'foo', 'bar', 'cutoff', 'index',
+                'midinote', 'detune', 'degree', 'db', 'zork')]
+            tgt = [k for k in ('pan', 'foo', 'bar', 'cutoff', 'index', 'zork',
+                               'c14copy') if k not in m]
+            if src and tgt:
+                s_, t_ = rng.choice(src), rng.choice(tgt)
+                mul, add = rng.choice([(1, 0), (1, 0), (2, 0), (0.5, 1),
+                                       (-1, 0.25)])
+                length = None
+                if rng.random() < 0.15:
+                    length = rng.randint(1, 4)
+                m[t_] = ['key', s_, length, mul, add]
+                used.add('pkey')
+                if s_ == 'dur' and 'legato' not in m and 'sustain' not in m \
+                        and rng.random() < 0.5:
+                    # legato from the duration: a usual Pkey idiom
+                    m['legato'] = ['key', 'dur', None, 0.5, 0.25]
+        return p
+    if kind == 'ppar':
+        out = ['ppar', [_decorate(rng, c, insts, used) for c in p[1]]]
+    elif kind == 'pchain':
+        right = _decorate(rng, p[2], insts, used)
+        if right[0] in ('pbind', 'pdelta') and rng.random() < 0.4:
+            # a third operand in the middle: a <> m <> b
+            right = ['pchain', _chain_left(rng, 1, constant=True), right,
+                     'ctor']
+        hows = ['ctor', 'chain', 'chain']
+        if right[0] == 'pchain' and len(right) == 3 or \
+                right[0] == 'pchain' and right[3] == 'ctor':
+            hows += ['flat', 'flat-chain', 'flat-chain']
+        how = rng.choice(hows)
+        if how != 'ctor':
+            used.add('pchain-chain' if 'chain' in how else 'pchain-flat')
+        out = ['pchain', p[1], right, how]
+    elif kind in ('pdur', 'pdelta'):
+        out = [kind, p[1], _decorate(rng, p[2], insts, used)]
+    else:
+        return p
+    return out
+
+
+def _pevent_keys(rng):
+    ev = {}
+    for k, ch in (('amp', [0.05, 0.3, 1]), ('pan', [-1, 0.25, 1]),
+                  ('octave', [3, 4, 6]), ('mtranspose', [-2, 1, 3]),
+                  ('detune', [-3, 0.5, 4]), ('legato', [0.5, 1, 0.25]),
+                  ('foo', [0, 2, 7.5]), ('cutoff', [100, 1000.125]),
+                  ('group', [1, 77, 1001]),
+                  ('add_action', ['addToTail', 't', 1, 0]),
+                  ('zork', [1, 2])):
+        if rng.random() < 0.3:
+            ev[k] = _numv(rng, ch) if k != 'add_action' else rng.choice(ch)
+    if not ev:
+        ev['pan'] = 0.25
+    return ev
+
+
+def _wrap_pevent(rng, p, used, depth=0):
+    """Wrap some sub-patterns into Pevent(sub, event)."""
+    kind = p[0]
+    if rng.random() < (0.5 if depth == 0 else 0.2):
+        used.add('pevent')
+        inner = _wrap_pevent(rng, p, used, depth + 1) if depth < 2 and \
+            rng.random() < 0.15 else p
+        return ['pevent', _pevent_keys(rng), inner, rng.choice(['dict',
+                                                                'event'])]
+    if kind == 'ppar':
+        return ['ppar', [_wrap_pevent(rng, c, used, depth + 1) for c in p[1]]]
+    if kind == 'pchain':
+        return [kind, p[1], _wrap_pevent(rng, p[2], used, depth + 1)] + \
+            list(p[3:])
+    if kind in ('pdur', 'pdelta'):
+        return [kind, p[1], _wrap_pevent(rng, p[2], used, depth + 1)]
+    return p
+
+
+def entry_case(rng, insts, tags):
+    for _ in range(20):
+        used = set()
+        comp = composition(rng, insts, tags, False)
+        if me.timeline(comp).flags:
+            continue
+        # (a Pchain whose right operand is flattened must not hold a Pmono:
+        # chained mono lines are a case of their own)
+        comp = _decorate(rng, comp, insts, used)
+        comp = _wrap_pevent(rng, comp, used)
+        if used:
+            break
+    return {'pattern': comp, 'offgrid': False, 'entry': sorted(used),
+            'latency': rng.choice([0, 0, 0.05, 0.25, 0.015625]),
+            'where': rng.choice(['main', 'routine-system', 'routine-tempo']),
+            'clock': rng.choice(['default', 'system', 'tempo']),
+            'start': rng.choice([0.25, 1, 2.5, 0.0625]),
+            'proto': rng.choice([None, None, 'event'])}
+
+
+# ---------------------------------------------------------------- pattern faults
+#
+# An event that FAILS while a player plays it (a value of a column that the
+# message encoder refuses, a bad add action, a non-number in the pitch chain).
+# What the failing player does from there on is not decided (it ends, in this
+# library); every other player - running at the same time, started later, on
+# the same pattern objects and with the same prototype event object - and the
+# events of the failing player before the failure must be as usual.
+
+def pattern_fault_case(rng, insts, tags):
+    by_name = {i['name']: i for i in insts}
+    x = None
+    for _ in range(30):
+        pb = pbind_spec(rng, insts, tags, False, rests=False)
+        m = pb[1]
+        if isinstance(m['instrument'], str) and len(me.values(m['tag'])) >= 2:
+            x = pb
+            break
+    if x is None:
+        pb = pbind_spec(rng, insts, tags, False, rests=False)
+        pb[1]['instrument'] = insts[0]['name']
+        x = pb
+    m = x[1]
+    n = len(_first_rows(m))
+    k = rng.randint(0, n - 1)
+    inst = by_name[m['instrument']]
+    plain = _plain_controls_of(inst)
+    kinds = ['bad-add-action', 'bad-pitch']
+    if plain:
+        kinds += ['unencodable'] * 3 + ['too-big']
+    kind = rng.choice(kinds)
+    if kind in ('unencodable', 'too-big'):
+        key = rng.choice(plain)
+        bad = {'bad': rng.choice(['object', 'complex', 'set'])} \
+            if kind == 'unencodable' else {'bad': 'bigint'}
+        good = [rng.choice([-1, 0, 1, 0.25, 7.5, 2]) for _ in range(n)]
+    elif kind == 'bad-add-action':
+        key, bad = 'add_action', {'bad': 'str-bogus'}
+        good = [rng.choice(['addToTail', 't', 1, 'addToHead', 0])
+                for _ in range(n)]
+    else:
+        for pk in ('freq', 'midinote', 'note', 'degree', 'ctranspose',
+                   'harmonic', 'mtranspose', 'octave'):
+            m.pop(pk, None)
+        key, bad = 'degree', {'bad': rng.choice(['str-c', 'none'])}
+        good = [rng.randint(-7, 14) for _ in range(n)]
+    m[key] = ['seq', good, 1, 0]
+    fault = {'row': k, 'key': key, 'bad': bad, 'kind': kind,
+             'tags': me.values(m['tag'])[k:]}
+    # the pattern that fails, below filters that keep the stream sequential
+    xs = x
+    r = rng.random()
+    if r < 0.2:
+        xs = ['pdelta', rng.choice([0.25, 0.5, 1]), x]
+    elif r < 0.4:
+        xs = ['pchain', _chain_left(rng, n, constant=True), x]
+    y = composition(rng, insts, tags, False, rng.choice([0, 1]))
+    while me.timeline(y).flags:
+        y = composition(rng, insts, tags, False, 1)
+    tx = me.timeline(xs).total
+    ty = me.timeline(y).total
+    grid = lambda hi: rng.randint(0, max(1, int(hi * 16))) / 16.0
+    plays = [{'use': 'x', 'at': 0.0}]
+    t = 0.0
+    for _ in range(rng.randint(1, 4)):
+        t += grid(max(tx, ty))
+        plays.append({'use': rng.choice(['y', 'y', 'x']), 'at': t})
+    if rng.random() < 0.5:
+        plays.insert(0, {'use': 'y', 'at': 0.0})
+    return {'shared': {'x': xs, 'y': y}, 'fault': fault, 'plays': plays,
+            'form': 'pattern-fault', 'offgrid': False,
+            'latency': rng.choice([0, 0, 0.05, 0.25]),
+            'clock': rng.choice(['default', 'system', 'tempo']),
+            'proto': rng.choice([None, 'event', 'event'])}
+
+
+def _first_rows(m):
+    return me._bind_events(m)
+
+
+def control_shard_case(rng, insts, tags):
+    r = rng.random()
+    if r < 0.3:
+        return entry_case(rng, insts, tags)
+    if r < 0.42:
+        return pattern_fault_case(rng, insts, tags)
+    return control_case(rng, insts, tags)
